@@ -67,6 +67,8 @@ class Block:
 
 
 class Function:
+    immutable = True  # shared between cloned states
+
     def __init__(self, name, header, line):
         self.name, self.header, self.line = name, header, line
         self.params = []  # (local, type)
